@@ -38,6 +38,9 @@ PROPS = {
     'C14': dict(engine='sidecar', module='Kvass.Props.C14', search_n=1200,
                 assumptions=['the float mean int64(float64(total)/float64(n)) equals integer division below 2^51 (n <= 3): exercised at exact multiples and neighbours', 'metric relabeling is a parameter (kept : Bool per sample) of the counting model; the real relabel engine runs in the harness'],
                 partial='none for the stated clauses: counts, per-metric sums, sliding window over every result sequence, shard load formula'),
+    'C15': dict(engine='labels', module='Kvass.Props.C15', search_n=1500,
+                assumptions=['label names and values are byte strings; Go string comparison = byte-wise lexicographic order', 'xxhash64 and FNV-1a are implemented in Lean and compared bit for bit with the Go libraries on every generated target; nothing is claimed about their collision resistance'],
+                partial='"different labels or URL give different hashes" is false of any 64-bit hash as a universal statement and is not a theorem: proved are order independence, being a function of (label set, URL), and injectivity of the byte encoding fed to xxhash; distinctness of single-difference pairs is tested by the engine'),
     'C17': dict(engine='disc', module='Kvass.Props.C17', search_n=1500,
                 assumptions=['a discovered target is represented by the outcome of its translation (key = final labels + URL, dropped, rejected); the label pipeline itself is C02/C15', 'TargetsDiscovery methods are atomic under their mutex (goroutine interleavings inside a method are not modelled)'],
                 partial='update / reload / group theorems are per step, for every state; the explorer table is proved for reloads and compared with the real Explore on every history; readers running concurrently with writers are exercised only by the snapshot re-comparison'),
@@ -54,6 +57,7 @@ PROPS = {
 }
 
 LEVEL_TEXT = {
+    'C15': 'Machine-checked theorems (Lean 4) about an executable re-implementation of targetHash (xxhash64 + FNV-1a, known-answer tested and compared bit for bit with the real hash of every generated target): invariance under every permutation of the labels (so group/target split and map order cannot matter), function of label set and URL, injective pre-hash encoding. The engine additionally compares hashes across discovery rounds, target orders, label splits and a freshly exec\'ed process.',
     'C19': 'Machine-checked theorems (Lean 4): runOnce yields for replica i exactly Coord.cycle of i\'s own reports, one result per replica whatever fails, hence C01/C04 guarantees per replica. The tie to the code is the replicas engine: the real runOnce with 2-3 replicas (list errors, scale errors, unready replicas, different placements) over 1-2 cycles; every replica\'s requests must be an outcome of the model on that replica alone, explorer status objects must be unchanged.',
     'C20': 'Machine-checked theorems (Lean 4) by induction over every interleaving of gets, discovery updates, reloads, probe starts, probe results and retry timers: an entry owns at most one token (queued / in flight / sleeping), tokens exist only for asked, not yet successful entries, no token after success, a failed probe arms exactly one timer that re-queues iff the same entry is still listed, the estimate is the successful probe\'s counts. Conditions regenerated from explore.go; linearised event logs of the real Explore with 1-3 workers are validated against the model with timers firing at any moment.',
     'C17': 'Machine-checked theorems (Lean 4), for every state and every update / reload: the sets of a job in an update become exactly its translation, other jobs keep theirs, a reload keeps listed jobs unchanged and removes the others in one step, all dropped targets are kept, a rejected target does not affect the rest of its group, explorer entries follow reloads. Conditions regenerated from discovery.go/translate.go/explore.go; validated on random histories through the real Run channel, ApplyConfig and Explore, with snapshot re-comparison.',
@@ -76,10 +80,11 @@ NOT_APPLICABLE = {
     'C06': 'check under construction', 
     'C11': 'check under construction',
     'C14': 'check under construction',
-    'C15': 'check under construction', 'C16': 'check under construction', 
+    'C16': 'check under construction',
 }
 
 ENGINES = [
+    {'name': 'labels', 'path': 'harness/cmd/kvh/labels.go', 'kind_free_text': 'random scrape configs x target groups through the real TargetsDiscovery; hashes recomputed in Lean, compared across rounds / permutations / processes'},
     {'name': 'replicas', 'path': 'harness/cmd/kvh/replicas.go', 'kind_free_text': 'real Coordinator.runOnce with several replicas sharing options / discovered set / explorer objects, 1-2 cycles; per-replica outcomes matched against Coord.cycle alone through the coord driver'},
     {'name': 'explore', 'path': 'harness/cmd/kvh/explore.go', 'kind_free_text': 'real Explore.Run with 1-3 workers; probes block in an in-memory transport until released with a chosen result; event log validated against Explore.step (set-of-states simulation), plus per-hash monitors'},
     {'name': 'disc', 'path': 'harness/cmd/kvh/disc.go', 'kind_free_text': 'real TargetsDiscovery fed through Run\'s channel, ApplyConfig, Explore.UpdateTargets/ApplyConfig/Get; histories of updates and reloads trace-validated against Disc.step'},
